@@ -110,6 +110,8 @@ def run(prog, rep):
                 for h in SC.histories(rep.tier, True):
                     if sv == "lapack" and len(h) > 3 and rep.tier == "quick":
                         continue
+                    if cfg["n_pts"] > 1 and cls == "StockDrivenDSM" and h not in ("CPC", "CDC", "RPC"):
+                        continue        # two-point quadrature in the stock-driven solvers: rational functions of sums; a few histories only
                     jobs.append(("history", c2, cls, h))
     # equidistant grid + parameters that are first the same for all cohorts and then vary over time (a decision taken once, at
     # construction, on "all cohorts share one curve" is seen), and the reverse
